@@ -4,9 +4,10 @@ from translators import tr_c14
 PID = "C14"
 CLAIM = True
 MANIFEST_TEXT = ("Lean 4 theorems, for every rank and all extents (0 and 1 included), about a model whose offset/stride/"
-                 "product/span-size/size() loops, the summand of layout_stride's fold expression and the container element "
-                 "counts of the mdarray constructors from a mapping and from an mdspan are regenerated from layout_left.hh, "
-                 "layout_right.hh, layout_stride.hh, extents.hh, mdspan.hh and mdarray.hh on every run: offsets of valid index tuples lie in "
+                 "product/span-size/size() loops, the summand of layout_stride's fold expression, the container element "
+                 "counts of the mdarray constructors from a mapping and from an mdspan, and precondition / pointer offset / size "
+                 "of the six span sub-view functions plus subspan_extent are regenerated from layout_left.hh, "
+                 "layout_right.hh, layout_stride.hh, extents.hh, mdspan.hh, mdarray.hh and span.hh on every run: offsets of valid index tuples lie in "
                  "[0, required_span_size), are injective (left/right always; strided under the sorted-stride criterion, "
                  "dimensions of extent 1 ignored), change by stride(r) per unit step, equal the column-/row-major closed form, "
                  "fill the range without gaps (left/right); no intermediate value of the offset loops exceeds the final offset "
@@ -26,7 +27,9 @@ MANIFEST_TEXT = ("Lean 4 theorems, for every rank and all extents (0 and 1 inclu
                  "surplus; the stride()/product()/size()/required_span_size() loops never exceed their result for non-empty "
                  "index spaces and stride(i)*extent(i) <= required_span_size (no overflow in ANY index type whose range holds "
                  "the span); converted views read the same elements; span sub-views denote the designated elements for ALL "
-                 "histories of first/last/subspan.  The model is run against the real templates (ranks 0..4, extents 0..4 (random "
+                 "histories of first/last/subspan, and the six member functions as they read in span.hh (run-time and template "
+                 "forms, static or dynamic extent) refine these abstract operations for all histories, declaring a static extent "
+                 "that equals the size of the result.  The model is run against the real templates (ranks 0..4, extents 0..4 (random "
                  "part up to 8), 35 static/dynamic patterns, index types int/size_t/short/long, all index tuples, every public "
                  "constructor of extents/mappings/mdspan/mdarray/span, containers with 0..6 surplus elements, a recording custom "
                  "accessor with a non-pointer data handle and an interleaved accessor access(p,i)=p[2i+1] for views and for "
@@ -73,7 +76,7 @@ RULE = ("round four: a quarter of the mdarray cases use an array with a strided 
         "both sides and counted trivial)")
 ASSUMPTIONS = [
     "the loop skeletons in lean/DuneVerif/Model/C14.lean are hand-written; their fidelity to the C++ templates rests on this differential run",
-    "the loop pieces (initial value, bounds, step) of operator(), stride(i), product(), layout_stride size() and mdspan/mdarray size(), the summand/initial value of layout_stride's fold expression and the container element counts of mdarray(mapping...) / mdarray(mdspan[, alloc]) are regenerated from the sources by tools/translators/tr_c14.py",
+    "the loop pieces (initial value, bounds, step) of operator(), stride(i), product(), layout_stride size() and mdspan/mdarray size(), the summand/initial value of layout_stride's fold expression the container element counts of mdarray(mapping...) / mdarray(mdspan[, alloc]) and precondition/offset/size of span::first/last/subspan (both forms) and subspan_extent are regenerated from the sources by tools/translators/tr_c14.py",
     "index arithmetic over Nat: required_span_size (with extents 0 counted as 1) fits index_type (map/conv/mdspan/mdarray: extents <= 8, strides <= 1000; bigmap: up to 32767 / 2^31-1 / 2^61)",
     "the tree under test contains fixes/C14_from_stride.patch, C14_mdspan_convert.patch and C14_mdarray_alloc.patch (the harness instantiates the constructors they repair); without fixes/C14_stride_rank0.patch the rank-0 strided cases are reported as violations; without fixes/C14_mdarray_span_size.patch the theorem mdarray_from_view_alloc fails (broken obligation) and the padded-array cases crash under ASan (replay `mdarray size dd stride span call [2,3] [4,1]`)",
     "user-supplied layout policies are represented by PadLayout (harness), whose mapping is Dune's layout_stride::mapping; the theorems quantify over every mapping satisfying InjOn",
